@@ -176,8 +176,8 @@ theorem inb_hlle_col_partial (d : Int) (j p : Nat) (hd : 1 ≤ d) (hd2 : d ≤ 2
       decide
 -- <<< OPEN F-HLLE-CT
 /- >>> CLOSED F-HLLE-CT
-/-- every written column `Yi.col(ct + p + 1 + d)` of the loop nest lies inside the `1 + d + dp` columns of `Yi`
-    (F-HLLE-CT repaired: `ct += target_dimension - j`) -/
+-- every written column `Yi.col(ct + p + 1 + d)` of the loop nest lies inside the `1 + d + dp` columns of `Yi`
+-- (F-HLLE-CT repaired: `ct += target_dimension - j`)
 theorem inb_hlle_col : InbHlleCol := by
   intro d j p _ hj hp
   have hstep : ∀ ct d j, hlle_ct_step ct d j = ct + (d - j) := by
@@ -235,7 +235,7 @@ theorem inb_hlle_eigvec_rightCols_partial (c : Config) (h : validated c = true) 
   simp only [InCount, hlle_eigvec_rightCols]; omega
 -- <<< OPEN F-DIM-RANK-LOCAL
 /- >>> CLOSED F-DIM-RANK-LOCAL
-/-- validate() now bounds target_dimension by num_neighbors -/
+-- validate() now bounds target_dimension by num_neighbors
 theorem inb_hlle_eigvec_rightCols : InbHlleEigvec := by
   intro c h hm
   have hv := validated_method h
@@ -266,7 +266,7 @@ theorem inb_ltsa_eigvec_rightCols_partial (c : Config) (h : validated c = true) 
   simp only [InCount, ltsa_eigvec_rightCols]; omega
 -- <<< OPEN F-DIM-RANK-LOCAL
 /- >>> CLOSED F-DIM-RANK-LOCAL
-/-- validate() now bounds target_dimension by num_neighbors -/
+-- validate() now bounds target_dimension by num_neighbors
 theorem inb_ltsa_eigvec_rightCols : InbLtsaEigvec := by
   intro c h hm
   have hv := validated_method h
@@ -313,7 +313,7 @@ theorem inb_pca_rightCols_partial (c : Config) (h : validated c = true) (hdD : c
   simp only [InCount, dense_largest_rightCols, dense_largest_tail]; omega
 -- <<< OPEN F-DIM-RANK-LINEAR
 /- >>> CLOSED F-DIM-RANK-LINEAR
-/-- validate() now bounds target_dimension by the feature dimension -/
+-- validate() now bounds target_dimension by the feature dimension
 theorem inb_pca_rightCols : InbPcaCols := by
   intro c h hm
   have hv := validated_method h
@@ -353,7 +353,7 @@ theorem inb_landmark_rightCols_partial (c : Config) (h : validated c = true) (hd
   simp only [InCount, dense_largest_rightCols]; omega
 -- <<< OPEN F-LANDMARK-DIM
 /- >>> CLOSED F-LANDMARK-DIM
-/-- validate() now bounds target_dimension by the number of landmarks -/
+-- validate() now bounds target_dimension by the number of landmarks
 theorem inb_landmark_rightCols : InbLandmarkCols := by
   intro c h hm
   have hv := validated_method h
@@ -393,7 +393,7 @@ theorem inb_dense_segment_partial (c : Config) (h : validated c = true) (hd : c.
   simp only [InBlock, dense_segment_start, dense_segment_len, skip_SmallestEigenvalues]; omega
 -- <<< OPEN F-EIG-SEGMENT
 /- >>> CLOSED F-EIG-SEGMENT
-/-- the eigenvalue slice `segment(skip, target_dimension)` lies inside the N eigenvalues -/
+-- the eigenvalue slice `segment(skip, target_dimension)` lies inside the N eigenvalues
 theorem inb_dense_segment : InbDenseSegment := by
   intro c h
   have := validated_d h
@@ -451,7 +451,7 @@ theorem inb_gen_linear_cols_partial (c : Config) (h : validated c = true) (hdD :
   simp only [InCount, InBlock, gen_smallest_leftCols, gen_segment_start, gen_segment_len, gen_dense_dense_skip]; omega
 -- <<< OPEN F-DIM-RANK-LINEAR
 /- >>> CLOSED F-DIM-RANK-LINEAR
-/-- validate() of NPE / LPP / LLTSA now bounds target_dimension by the feature dimension -/
+-- validate() of NPE / LPP / LLTSA now bounds target_dimension by the feature dimension
 theorem inb_gen_linear_cols : InbGenLinearCols := by
   intro c h hm
   have hv := validated_method h
@@ -546,7 +546,7 @@ theorem inb_tsne_posf_refuted : ¬ InbTsneBH := by
 
 -- <<< OPEN F-TSNE-DIMS
 /- >>> CLOSED F-TSNE-DIMS
-/-- validate() now requires target_dimension = 2 when θ > 0 -/
+-- validate() now requires target_dimension = 2 when θ > 0
 theorem inb_tsne_posf : InbTsneBH := by
   intro c h hm hth n dd hn0 hn hd0 hd
   have hv := validated_method h
@@ -586,7 +586,7 @@ theorem inb_tsne_exact_error_refuted : ¬ InbTsneExactError := by
 
 -- <<< OPEN F-TSNE-DIMS
 /- >>> CLOSED F-TSNE-DIMS
-/-- the exact error evaluation now reads `Y` with its own width -/
+-- the exact error evaluation now reads `Y` with its own width
 theorem inb_tsne_exact_error : InbTsneExactError := by
   intro c _ _ _ n dd hn0 hn hd0 hd
   exact inb_tsne_exact_error_partial c (by simp [tsne_exact_error_dims]) n dd hn0 hn hd0 hd
@@ -632,7 +632,7 @@ theorem inb_ms_rows_partial (c : Config) (h : validated c = true) (hdD : c.d ≤
   simp only [InCount, ms_row_hi, ms_topRows, ms_bottomRows]; omega
 -- <<< OPEN F-DIM-RANK-LOCAL
 /- >>> CLOSED F-DIM-RANK-LOCAL
-/-- validate() now bounds target_dimension by the feature dimension -/
+-- validate() now bounds target_dimension by the feature dimension
 theorem inb_ms_rows : InbMsRows := by
   intro c h hm
   have hv := validated_method h
@@ -674,7 +674,7 @@ theorem front_end_errors_documented_partial :
   decide
 -- <<< OPEN F-DOC-WPTE
 /- >>> CLOSED F-DOC-WPTE
-/-- every class embed.hpp rethrows is in its documented `@throw` list -/
+-- every class embed.hpp rethrows is in its documented `@throw` list
 theorem front_end_errors_documented : FrontEndErrorsDocumented := by
   unfold FrontEndErrorsDocumented; decide
 <<< CLOSED F-DOC-WPTE -/
